@@ -92,6 +92,7 @@ def run(ctx, facts):
     ctx.floor("C10 seeding sites", s, 1)
     C11.absorb_rule(ctx, facts)
     C11.finish_rule(ctx, facts)
+    C11.lenguard_rule(ctx, facts)
     C11.occurrence_rule(ctx, facts)
     m = seedmix(ctx, facts, [POM + "hash_set"])
     ctx.floor("C10 generator constructions in hash_set", m, 1)
